@@ -468,8 +468,11 @@ def oracleUnpaired {F : Type} [FloatLike F] (conf : Confidence Float) (xs ys : L
     let se := (A + B).sqrt
     let seTol := if se > 0.0 && (dA + dB) / se < (dA + dB).sqrt then (dA + dB) / se else (dA + dB).sqrt
     let hw := c * se
-    let dofAt (a b : Float) : Float := (a + b) * (a + b) / (a * a / (na + 1.0) + b * b / (nb + 1.0)) - 2.0
-    let nu := dofAt A B
+    -- the documented effective dof depends on the ratio of the two variance terms only: evaluated in that
+    -- (scale-free) form it cannot leave the range of the floats, whatever the unit of the data
+    let nu : Float :=
+      if A ≥ B then (let r := B / A; (1.0 + r) * (1.0 + r) / (1.0 / (na + 1.0) + r * r / (nb + 1.0)) - 2.0)
+      else (let r := A / B; (r + 1.0) * (r + 1.0) / (r * r / (na + 1.0) + 1.0 / (nb + 1.0)) - 2.0)
     -- the effective dof over the box of admissible variances: as a function of r = B/A it is
     -- g(r) = (1+r)²/(1/(na+1) + r²/(nb+1)) − 2, increasing up to r* = (nb+1)/(na+1), decreasing after
     let lo0 (x dx : Float) := if x - dx > 0.0 then x - dx else 0.0
@@ -485,7 +488,10 @@ def oracleUnpaired {F : Type} [FloatLike F] (conf : Confidence Float) (xs ys : L
     let tol := 32.0 * u * (ea.meanAbs + eb.meanAbs + absF hw) + absF c * seTol + Float.scaleB 1.0 (-1060)
     let lo := d - hw; let hi := d + hw
     let dofBad :=
-      if dofModel.isNaN then [] else
+      -- not both samples are constant here, so the documented dof is a number ≥ min(na, nb) − 1: a NaN
+      -- (the fourth powers of huge or tiny spreads leaving the range) silently selects the normal quantile
+      if dofModel.isNaN then
+        (if nu.isNaN then [] else [s!"dof-nan(documented {nu}):magnitude-{if A + B > 1.0 then "huge" else "tiny"}"]) else
       let slack := 64.0 * u * (absF nu + 2.0) + 1e-9
       if nuMin - slack ≤ dofModel && dofModel ≤ nuMax + slack then []
       else [s!"dof-off(model {dofModel} exact {nu} admissible [{nuMin}, {nuMax}])"]
